@@ -469,6 +469,19 @@ def _factor(snap) -> Fraction | None:
     return ALL_FACTOR.get(str(snap["tags"].get("Base")))
 
 
+def _stuck_at_zero(snap) -> bool:
+    """Scope Time shows 0 although the current scope has been running: the signature of a Scope Time stack whose top
+    entry has lost its timer (`get_value` falls back to 0.0 and stays there)."""
+    if str(snap["tags"].get("Base")) not in TIME_UNITS or "_ledger" not in snap or _in_block(snap):
+        return False
+    return dec(snap["tags"]["Scope Time"]) == 0 and dec(snap["_ledger"]["scope"]) > Fraction(1, 1000000)
+
+
+def _has_alarm_nest(snap) -> bool:
+    nodes, _ = _node_maps(snap)
+    return any(_in_alarm_nest(nodes, n) for n in snap["nodes"] if n["cls"] in ("WatchNode", "AlarmNode"))
+
+
 def _reached(snap, T: Fraction) -> bool:
     c, f = _clock(snap), _factor(snap)
     return c is not None and f is not None and c >= T * f
@@ -723,6 +736,16 @@ def oracle_case(case: dict, stats: dict | None = None):
             if stats is not None:
                 stats[key] = stats.get(key, 0) + 1
 
+        def clock_key(snap, key):
+            """A failure that is explained by Scope Time being stuck at 0 gets the narrow key of the recorded root
+            cause (alarm nest: a scope activated twice; stale scope entries kept over Stop / Restart)."""
+            if _stuck_at_zero(snap):
+                if _has_alarm_nest(snap):
+                    return "scope-time-stuck-at-zero:alarm-nest"
+                if probe.runs > 1:
+                    return "scope-time-stuck-at-zero:stale-scopes-after-restart"
+            return key
+
         for k in range(1, case["ticks"] + 1):
             for act in case["plan"][k - 1] if k - 1 < len(case["plan"]) else []:
                 if act[0] == "tag":
@@ -813,7 +836,7 @@ def oracle_case(case: dict, stats: dict | None = None):
                         if stable and differs is not None and not _in_alarm_nest(cn, n):
                             # the start itself was in time on the ledger, but the engine's clock tag is not the
                             # elapsed running time of the scope
-                            return fail("scope-clock-differs-from-elapsed-running-time", k,
+                            return fail(clock_key(prev, "scope-clock-differs-from-elapsed-running-time"), k,
                                         f"line {n['line']} ({n['name']}: {n['arg']}) threshold {n['threshold']} {unit} "
                                         f"started in tick {k}: {differs}")
                         # (2) not later than the first eligible tick (retrospective)
@@ -826,18 +849,20 @@ def oracle_case(case: dict, stats: dict | None = None):
                                 cnt("thr_promptness_judged")
                             if b is not None and not b["started"] and not b["completed"] and not b["cancelled"] \
                                     and _pred_done(before, n["id"]) and _reached(before, T):
-                                return fail("threshold-instruction-started-later-than-first-eligible-tick", k,
+                                return fail(clock_key(before, "threshold-instruction-started-later-than-first-eligible-tick"), k,
                                             f"line {n['line']} threshold {n['threshold']}: in tick {kp} the predecessor was "
                                             f"complete and the clock {float(_clock(before))} had reached the threshold, "
-                                            f"but it started only in tick {k}")
+                                            f"but it started only in tick {k}" +
+                                            (f" ({_clock_disagreement(before)})" if _clock_disagreement(before) else ""))
                     elif ran_k and stable and not n["started"] and not p["started"] and not p["completed"] \
                             and not p["cancelled"] and p["parent"] is not None \
                             and pn[p["parent"]]["cls"] == "ProgramNode":
                         # (2') forward form, main sequence only (the root loop cannot die)
                         if _pred_done(prev, n["id"]) and _reached(prev, T):
-                            return fail("threshold-instruction-not-started-at-first-eligible-tick", k,
+                            return fail(clock_key(prev, "threshold-instruction-not-started-at-first-eligible-tick"), k,
                                         f"line {n['line']} threshold {n['threshold']}: predecessor complete and clock "
-                                        f"{float(_clock(prev))} >= threshold before tick {k}, not started in tick {k}")
+                                        f"{float(_clock(prev))} >= threshold before tick {k}, not started in tick {k}" +
+                                        (f" ({_clock_disagreement(prev)})" if _clock_disagreement(prev) else ""))
                 # ---------------- Wait
                 # a new execution of a Wait: its `started` flag flips, or (first line of a macro body: reset and
                 # restarted in one tick) it was completed before the tick and is started-not-completed after it
